@@ -33,9 +33,11 @@ GInit ==
 \* neighbours around a 19-digit composite key (consecutive integers that a float64 cannot tell apart).  Lookup
 \* is by exact identifier whatever the rendering; one rendering per behaviour, spread over the behaviours
 \* (the harness replays the lookup family under both).
-\* ("zero_based": the identifiers 1, 2, 3 ... are rendered 0, 1, 2 ... - the flight identifier 0 is one like any other)
-IdRenderings == <<"small", "wide", "zero_based">>
-IdRendering == IdRenderings[((Len(added) + Len(hist) + start) % 3) + 1]
+\* ("zero_based": the identifiers 1, 2, 3 ... are rendered 0, 1, 2 ... - the flight identifier 0 is one like any other;
+\*  "signed": they are rendered -1, 0, 1 ... - the identifier is a signed 64-bit integer, a negative one is looked up
+\*  like any other, and an identified trajectory offered to an unidentified store carries the identifier 0 there)
+IdRenderings == <<"small", "wide", "zero_based", "signed">>
+IdRendering == IdRenderings[((Len(added) + Len(hist) + start) % 4) + 1]
 \* How the sessions of a behaviour are started: through the factory methods (create / open / append) or through the
 \* public constructor with the mode given as FileMode member or as its plain string value; one form per behaviour.
 \* (The second form also leaves its sessions the way a `with` block does, the third hands indices and identifiers
